@@ -25,6 +25,11 @@ import traceback
 from pathlib import Path
 
 ROOT = Path(__file__).resolve().parent.parent
+# Seed trials only (par_seeds.sh): a scratch worktree of /repo with a seeded change applied and a
+# scratch directory for its replays/evidence, so that several seeds can be tried in parallel
+# without touching /repo or the committed evidence.  Registered commands never set these.
+REPO = os.environ.get("VERIF_SCRATCH_REPO", "/repo")
+OUT = Path(os.environ.get("VERIF_SCRATCH_OUT", str(ROOT)))
 N_WORKERS = min(16, os.cpu_count() or 1)
 
 
@@ -66,8 +71,8 @@ def canon(obj) -> str:
 def assert_bound_to_repo():
     import mici
 
-    if not mici.__file__.startswith("/repo/src/"):
-        raise HarnessError(f"mici imported from {mici.__file__}, not /repo/src")
+    if not mici.__file__.startswith(REPO + "/src/"):
+        raise HarnessError(f"mici imported from {mici.__file__}, not {REPO}/src")
 
 
 # --------------------------------------------------------------------------------------
@@ -256,7 +261,7 @@ def write_replay(prop: str, seed: int, rec: dict) -> Path:
     body.update(rec)
     text = json.dumps(body, indent=1, sort_keys=True)
     h = hashlib.sha1(canon(body).encode()).hexdigest()[:16]
-    d = ROOT / "replays" / prop
+    d = OUT / "replays" / prop
     d.mkdir(parents=True, exist_ok=True)
     p = d / f"{h}.json"
     p.write_text(text)
@@ -305,7 +310,7 @@ def main(argv=None):
         t0 = time.time()
         acc = Acc()
         # replay files of earlier runs are stale: start from an empty directory
-        rdir = ROOT / "replays" / prop
+        rdir = OUT / "replays" / prop
         if rdir.exists():
             for old_file in rdir.glob("*.json"):
                 old_file.unlink()
@@ -352,8 +357,8 @@ def main(argv=None):
             "coverage": _jsonable(coverage), "assumptions": assumptions,
             "wall_s": round(wall, 2), "violations": len(new_groups),
         }
-        (ROOT / "evidence").mkdir(exist_ok=True)
-        (ROOT / "evidence" / f"{prop}.json").write_text(json.dumps(ev, indent=1, sort_keys=True))
+        (OUT / "evidence").mkdir(exist_ok=True, parents=True)
+        (OUT / "evidence" / f"{prop}.json").write_text(json.dumps(ev, indent=1, sort_keys=True))
         for e, n in known_hits.values():
             print(f"KNOWN-FINDING: property={prop} {e['description']} [{n} case group(s)]")
         summary = {k: coverage[k] for k in coverage
